@@ -303,6 +303,23 @@ ADDED_B13B = {
     "C13": "C13.12 a digest specified to be independent of member order and of type names folds the members of a union / intersection commutatively or in a name-free canonical order (recorded findings: AnyOfRuntype / AllOfRuntype .hash and .hash256 write list order, and the compiler lists named members by name).",
     "C15": "C15.16 describe() never prints a mapped member `[K in ..]` inside braces that also hold declared properties (recorded finding: such text is not TypeScript and does not compile back).",
 }
+ADDED_B14 = {
+    "C01": "Added after the fourteenth batch: C01.26 a conditional type is decided by one inclusion test of the checked type as written (no distribution over a resolved union unless guarded by the type-parameter scope).",
+    "C02": "Added after the fourteenth batch: C02.12 also demands that the narrowing of the schema table does not hang on a flag.",
+    "C04": "Added after the fourteenth batch: C04.11 a loop that follows references through a definition table records where it has been (visited set or fuel).",
+    "C05": "Added after the fourteenth batch: C05.15 the reference -> atom memo of the converter is keyed by the whole reference (name and type arguments), decided on the types.",
+    "C06": "Added after the fourteenth batch: C06.7 the whole-type operations match every answer (all / proper) the per-tag diagram operations can construct; the arm algebra interprets constructor helpers that take a variant constructor as a value.",
+    "C07": "Added after the fourteenth batch: C07.14 (= C01.18) the rest element of a list atom takes part in indexed access from the index that equals the prefix length.",
+    "C08": "Added after the fourteenth batch: C08.15 (= C01.7) rebuilding a type from the parts of a matched node carries over all its constraints (interface vs alias spelling).",
+    "C09": "Added after the fourteenth batch: C09.18 the type-only markers of import / export lists take no part in binding (canary control).",
+    "C10": "Added after the fourteenth batch: C10.7 no type in the closure of serialised types holds a HashMap / HashSet (derived Serialize iterates without a loop in the source).",
+    "C11": "Added after the fourteenth batch: C11.9 every intersection built by the interface lowering is offered to the flattening into one closed object.",
+    "C12": "Added after the fourteenth batch: C12.12 (= C11.2 + C03.2) reporters tell declared from undeclared keys as validate does.",
+    "C15": "Added after the fourteenth batch: C15.17 the mapped-type lowering has an evaluation of the member type outside the key variable's scope (necessary for the `[K in ..]` text describe() prints to mean the index signature it came from).",
+    "C16": "Added after the fourteenth batch: C16.2 also demands that no method both marks a name in progress and writes the definition table.",
+}
+for _k, _v in ADDED_B14.items():
+    ADDED_B13[_k] = (ADDED_B13.get(_k, "") + " " + _v).strip()
 for _k, _v in ADDED_B13B.items():
     ADDED_B13[_k] = (ADDED_B13.get(_k, "") + " " + _v).strip()
 for _k, _v in ADDED_B11.items():
